@@ -539,7 +539,7 @@ func tlsListenerScenario(x *explore.X, maxConns int) {
 
 func TestC11(t *testing.T) {
 	s := explore.NewSuite(t, "C11", "model_checking",
-		"1-2 (quick) / 1-3 (thorough) client connections, each in one of 8 phases (idle before any byte, partial head, request at origin, reply head relayed and body pending, idle keep-alive, inside CONNECT tunnel, inside MITM idle, inside MITM with request at origin) [full product]; then shutdown, through Run's context and directly on the martian proxy (return value observable); then EVERY order of post-shutdown events (origin completes i, tunnel ends i, client i sends, client i aborts, new client connects, clock +600 ms, clock to idle timeout, clock past shutdown timeout) to depth 2 (quick) / 3 (thorough); states = quiescent event histories; invariants at every state: no request first sent after shutdown reaches an origin, in-flight exchanges are not cut before the deadline and complete in full with Connection: close and then the socket is closed, late connections get no byte, Shutdown returns nil only with all served connections closed and an error only at the deadline, after Run returns / after Close every accepted socket is closed and the open-connection counter is 0, no goroutine survives; plus (tls-listener) 1-2 (quick) / 1-3 (thorough) clients on a TLS listener in one of 6 phases around the handshake (silent, partial hello, closed before / in the middle of the hello with FIN or RST, handshake done and then closed) [full product], then Shutdown with a 30 s deadline: it must succeed with count 0 and every socket closed; plus (same-announced-source) the shutdown family on a PROXY-protocol listener where every connection announces the same source address and port")
+		"1-2 (quick) / 1-3 (thorough) client connections, each in one of 8 phases (idle before any byte, partial head, request at origin, reply head relayed and body pending, idle keep-alive, inside CONNECT tunnel, inside MITM idle, inside MITM with request at origin) [full product]; then shutdown, through Run's context and directly on the martian proxy (return value observable); then EVERY order of post-shutdown events (origin completes i, tunnel ends i, client i sends, client i aborts, new client connects, clock +600 ms, clock to idle timeout, clock past shutdown timeout) to depth 2 (quick) / 3 (thorough); states = quiescent event histories; invariants at every state: no request first sent after shutdown reaches an origin, in-flight exchanges are not cut before the deadline and complete in full with Connection: close and then the socket is closed, late connections get no byte, Shutdown returns nil only with all served connections closed and an error only at the deadline, after Run returns / after Close every accepted socket is closed and the open-connection counter is 0, no goroutine survives; plus (tls-listener) 1-2 (quick) / 1-3 (thorough) clients on a TLS listener in one of 6 phases around the handshake (silent, partial hello, closed before / in the middle of the hello with FIN or RST, handshake done and then closed) [full product], then Shutdown with a 30 s deadline: it must succeed with count 0 and every socket closed; plus (same-announced-source) the shutdown family on a PROXY-protocol listener where every connection announces the same source address and port; (round 9) x listener with bandwidth limits (connections wrapped by the rate-limiting listener, which is closed when shutdown begins)")
 	s.Assume = []string{"virtual clock; sync.Mutex of proxy.go replaced by a durably-blocking mutex at build time (Shutdown holds connsMu across its timed wait)", "(registration-vs-shutdown) sync.Mutex / atomic.Int32 / sync.Once and the go statement of internal/martian/proxy.go are redirected at build time to a cooperative scheduler: all interleavings of 1 (quick, at most 2 preemptions) / 1-2 (quick with at most 1 preemption, thorough with at most 2) handleLoop registrations, Shutdown and Close; the iteration order of the connection map in Close is an explored choice"}
 	for _, tier := range []string{"quick", "thorough"} {
 		mc := map[string]int{"quick": 2, "thorough": 2}[tier]
